@@ -287,6 +287,15 @@ func (g *gen) randomDelta(rnd *vlib.Rand, id int, malformed bool) {
 		pool = []int{tCDS, tEDS, tADDR, tWORKLOAD, tEMPTY, tDEBUG}
 	}
 	book := &nonceBook{sent: map[int][]int{}}
+	if malformed && rnd.Chance(40) {
+		// an EDS watch armed by a SotW CDS initialisation on the same connection
+		r.do(Op{Kind: kDReq, T: tEDS, Sub: shuffle(rnd, subset(rnd, 2)), Err: -1})
+		n1 := book.next()
+		r.do(Op{Kind: kSendDelta, T: tEDS, Nonce: n1, OK: true, Err: -1})
+		book.sent[tEDS] = append(book.sent[tEDS], n1)
+		r.do(Op{Kind: kReq, T: tCDS, Err: -1})
+		pool = []int{tEDS, tEDS, tCDS}
+	}
 	n := 3 + rnd.Intn(10)
 	for i := 0; i < n && !r.dead; i++ {
 		t := vlib.Pick(rnd, pool)
@@ -640,6 +649,18 @@ func (g *gen) witnesses() {
 		{Kind: kSend, T: tCDS, Nonce: 2, OK: true, Err: no},
 		{Kind: kReq, T: tEDS, Names: []int{2, 1}, Nonce: 1, Err: no},
 		{Kind: kReq, T: tEDS, Names: []int{1, 2}, Nonce: 1, Err: no},
+	}, nil, "")
+	// the warming flag on a connection that also speaks delta for EDS (non-conformant mix): the
+	// forced answer of shouldRespondDelta is one-shot too
+	g.witness(g.id(), "witness-delta-forced", []Op{
+		{Kind: kDReq, T: tEDS, Sub: []int{1}, Nonce: 0, Err: no},
+		{Kind: kSendDelta, T: tEDS, Nonce: 1, OK: true, Err: no},
+		{Kind: kReq, T: tCDS, Names: nil, Nonce: 0, Err: no},
+		{Kind: kDReq, T: tEDS, Nonce: 1, Err: no},
+		{Kind: kDReq, T: tEDS, Nonce: 1, Err: no},
+		{Kind: kReq, T: tCDS, Names: nil, Nonce: 0, Err: no},
+		{Kind: kDReq, T: tEDS, Nonce: 0, Err: no},
+		{Kind: kDReq, T: tEDS, Nonce: 0, Err: no},
 	}, nil, "")
 	// answered but nothing sent (generator returned nil): NonceSent stays empty and the client's
 	// retained nonce is then classified stale
